@@ -54,7 +54,17 @@ def make_transform():
     return fn
 
 
-def _net():
+def _net(fused=False):
+    if fused:
+        if "f" not in _NET:
+            net = copy.deepcopy(_net())
+            b3 = pp.create_bus(net, 20.)
+            pp.create_switch(net, 2, b3, "b", closed=True)
+            pp.create_load(net, b3, 0.25, 0.05, scaling=1.3)
+            pp.create_asymmetric_load(net, b3, p_a_mw=0.02, p_b_mw=0.03, p_c_mw=0.01, q_a_mvar=0.005, q_b_mvar=0.002, q_c_mvar=0.001, type="delta")
+            pp.runpp_3ph(net)
+            _NET["f"] = net
+        return _NET["f"]
     if "n" not in _NET:
         net = pp.create_empty_network(sn_mva=10.)
         b0 = pp.create_bus(net, 20.)
@@ -121,14 +131,14 @@ def make_bookkeeping():
     return fn
 
 
-def make_load_mapping():
+def make_load_mapping(fused=False):
     """forward mapping of the three-phase solver (what is injected per bus and phase) == backward mapping of the result writer
     (what is reported per bus and phase): per-phase nodal balance of the result tables follows from the solver's balance"""
     def fn(ctx):
         r3 = ctx.load("pandapower.pf.runpp_3ph")
         rb = ctx.load("pandapower.results_bus")
         from pandapower.results import _get_aranged_lookup
-        net = copy.deepcopy(_net())
+        net = copy.deepcopy(_net(fused))
         net.asymmetric_load.loc[0, "type"] = "delta"
         S = {}
         for tab in ("load", "sgen"):
@@ -138,9 +148,9 @@ def make_load_mapping():
                 setcol(ctx, net[tab], c, vals)
         for tab in ("asymmetric_load", "asymmetric_sgen"):
             for c in ("p_a_mw", "p_b_mw", "p_c_mw", "q_a_mvar", "q_b_mvar", "q_c_mvar"):
-                S[(tab, c)] = [ctx.var(f"{tab}_{c}", -5., 5.)]
+                S[(tab, c)] = [ctx.var(f"{tab}{r}_{c}", -5., 5.) for r in range(len(net[tab]))]
                 setcol(ctx, net[tab], c, S[(tab, c)])
-            S[(tab, "scaling")] = [ctx.var(f"{tab}_scaling", 0.1, 2.)]
+            S[(tab, "scaling")] = [ctx.var(f"{tab}{r}_scaling", 0.1, 2.) for r in range(len(net[tab]))]
             setcol(ctx, net[tab], "scaling", S[(tab, "scaling")])
         for t in ("res_load_3ph", "res_sgen_3ph", "res_asymmetric_load_3ph", "res_asymmetric_sgen_3ph", "res_storage_3ph"):
             if t in net:
@@ -152,10 +162,13 @@ def make_load_mapping():
         bus_pq = rb._get_p_q_results_3ph(net, ar)
         lookup = net["_pd2ppc_lookups"]["bus"]
         for k, (ph, col) in enumerate((("a", 0), ("b", 2), ("c", 4))):
-            for pb in net.bus.index:
-                inj = Sdel[k, lookup[pb]] + Swye[k, lookup[pb]]
-                ctx.eq(f"solver_injection_equals_reported_bus_power/bus{pb}_phase_{ph}.p", inj.real, bus_pq[ar[pb], col])
-                ctx.eq(f"solver_injection_equals_reported_bus_power/bus{pb}_phase_{ph}.q", inj.imag, bus_pq[ar[pb], col + 1])
+            # buses joined by a closed bus-bus switch are one node of the solver: its injection is the sum over the joined buses
+            for node in sorted(set(int(lookup[pb]) for pb in net.bus.index)):
+                members = [pb for pb in net.bus.index if int(lookup[pb]) == node]
+                inj = Sdel[k, node] + Swye[k, node]
+                nm = "_".join(f"bus{pb}" for pb in members)
+                ctx.eq(f"solver_injection_equals_reported_bus_power/{nm}_phase_{ph}.p", inj.real, sum(bus_pq[ar[pb], col] for pb in members))
+                ctx.eq(f"solver_injection_equals_reported_bus_power/{nm}_phase_{ph}.q", inj.imag, sum(bus_pq[ar[pb], col + 1] for pb in members))
     return fn
 
 
@@ -183,7 +196,8 @@ def instances(tier):
     return [Inst("sequence_phase_transform", make_transform(), nvars=16, samples=3, meta=dict(part="transformations")),
             Inst("phase_power_bookkeeping", make_bookkeeping(), nvars=48, samples=2, meta=dict(part="per-phase results")),
             Inst("trafo_magnetising_branch_3ph", make_trafo_magnetising(), nvars=16, samples=3, meta=dict(part="transformer no-load branch: pf_3ph vs pf")),
-            Inst("solver_load_mapping", make_load_mapping(), nvars=48, samples=2, meta=dict(part="per-phase injections of the solver vs reported bus powers"))]
+            Inst("solver_load_mapping", make_load_mapping(), nvars=48, samples=2, meta=dict(part="per-phase injections of the solver vs reported bus powers")),
+            Inst("solver_load_mapping_fused_buses", make_load_mapping(True), nvars=72, samples=2, meta=dict(part="per-phase injections of the solver vs reported bus powers", buses="two buses joined by a closed bus-bus switch, loads on both"))]
 
 
 LEVEL_TEXT = ("Bounded model checking of the three-phase kernels: the real sequence_to_phase / phase_to_sequence are shown to be mutually "
